@@ -5,7 +5,6 @@ package c19
 
 import (
 	"fmt"
-	"os"
 	"testing"
 
 	"pgregory.net/rapid"
@@ -23,7 +22,7 @@ const (
 // montOne is 1 in the Montgomery domain (2^256 mod p) as raw limbs.
 var montOne = [4]uint64{0x1000003d1, 0, 0, 0}
 
-func isPurego() bool { return os.Getenv("VERIF_BUILD") == "purego" }
+func isPurego() bool { return portableBuild }
 
 // lookupProjective runs the lookup under test with a sentinel-filled
 // destination between two guard points and checks the specification.
